@@ -53,6 +53,22 @@ PROPS = {
             "the split of a certificate's hooks into file hooks and certificate hooks (MainEventLoop::new); what the child processes do",
         ],
     },
+    "C11": {
+        "units": ["account"],
+        "design_ref": "DESIGN.md section 5 C11",
+        "technique": "Verus function contracts over a ghost record of what the CA holds; signing-key preconditions on the account requests",
+        "text": "Deductive proof that synchronize registers only when no account URL is stored or the external binding changed, otherwise sends at "
+                "most one key roll-over and one contact update, the roll-over first, each request being authorised by the key the CA holds, and "
+                "leaves the CA's record and the stored fingerprints in line with the configuration; that a changed key type or algorithm keeps the "
+                "old key among the superseded ones, creates a key of the configured type and saves at once; and that the roll-over is authorised by "
+                "the superseded key whose fingerprint is stored.",
+        "assumptions": [
+            "T: register_account / update_account_contacts / update_account_key (acme_proto/account.rs) are contracts here: what they send and what the CA then holds is stated, not proved",
+            "T: fingerprints (SHA-256 of key PEM / contacts / binding) are uninterpreted; HashMap lookup by endpoint name is ep_of",
+            "X: persistence (bincode round trip, a truncated file refusing start-up) - account/storage.rs is iterator- and serde-heavy and not under contract; "
+            "multi-restart histories are covered as 'any stored state in step with the CA', not enumerated",
+        ],
+    },
     "C13": {
         "units": ["storage", "config"],
         "design_ref": "DESIGN.md section 5 C13",
